@@ -18,7 +18,7 @@
       given shape IRIs, each typed once, each with exactly one
       [sh:targetClass], its class. *)
 From Coq Require Import List Ascii String Bool Arith.
-From Shexer Require Import Lib.PyStr Spec.ConstraintSpec.
+From Shexer Require Import Lib.PyStr Spec.ConstraintSpec Model.Shexing.
 Import ListNotations.
 
 (** ** terms and triples.  A blank node is identified by its position in
@@ -77,6 +77,10 @@ Definition node_shapes_exact (g : list rdf_triple) (shapes : list (str * str)) :
   (forall u c, In (u, c) shapes ->
      objects g (TIri u) (RDFNS "type") = [TIri (SH "NodeShape")] /\
      objects g (TIri u) (SH "targetClass") = [TIri c]).
+
+(** the (IRI, class) pairs of a shape list: a shape's label is [%<IRI>] *)
+Definition names_iris (shapes : list shape) (L : list (str * str)) : Prop :=
+  Forall2 (fun sh uc => sh_name sh = Str "%<" ++ fst uc ++ Str ">" /\ sh_class sh = snd uc) shapes L.
 
 (** ** computable versions (used on the concrete witnesses of Props/C05.v and
     by the harness's model-side self check) *)
